@@ -443,14 +443,14 @@ def run(ctx):
                 ops = [tuple([o[0]] + [bytes.fromhex(x) if i == 1 and o[0] == "update" else x
                                        for i, x in enumerate(o[1:])]) for o in c["ops"]]
                 run_cache_sequence(ctx, ops, c["max"], drv, "corpus")
-        nseq = 150 if quick else 1500
+        nseq = 700 if quick else 4000
         for s in range(nseq):
             maxmem = ctx.rng.choice([1, 2, 3, 4, 6, 8, 10, 16, 64])
             keys = ctx.rng.choice([KEYS_FLAT, KEYS_NESTED, KEYS_FLAT[:2], KEYS_FLAT + KEYS_NESTED])
             ops = gen_ops(ctx.rng, ctx.rng.randrange(2, 14 if quick else 40), keys, maxmem)
             run_cache_sequence(ctx, ops, maxmem, drv, "fcache")
-        run_klong_kvs(ctx, drv, 25 if quick else 250, 12 if quick else 40)
-        run_tables(ctx, drv, 25 if quick else 250)
+        run_klong_kvs(ctx, drv, 80 if quick else 500, 12 if quick else 40)
+        run_tables(ctx, drv, 80 if quick else 500)
     finally:
         if drv:
             drv.close()
